@@ -558,6 +558,11 @@ pub struct Preflight {
 /// On `Cap`/`Memory` the returned machine has `out`/`err`/`steps` rolled back to the
 /// state before the offending step (its stacks are not meaningful any more).
 pub fn preflight(cmds: &[Cmd], stdin: &[u8], budget: u64, cap_bits: usize, trace: bool) -> Preflight {
+    preflight_mem(cmds, stdin, budget, cap_bits, trace, 200_000)
+}
+
+/// `preflight` with an explicit bound on the number of live stack values.
+pub fn preflight_mem(cmds: &[Cmd], stdin: &[u8], budget: u64, cap_bits: usize, trace: bool, max_live: usize) -> Preflight {
     let mut m = Machine::new();
     let mut tr = Vec::new();
     if cmds.is_empty() {
@@ -569,7 +574,7 @@ pub fn preflight(cmds: &[Cmd], stdin: &[u8], budget: u64, cap_bits: usize, trace
         }
         let (o, e, st) = (m.out.len(), m.err.len(), m.steps);
         let r = m.step(cmds, stdin);
-        if m.max_bits > cap_bits || m.live > 200_000 {
+        if m.max_bits > cap_bits || m.live > max_live {
             let halt = if m.max_bits > cap_bits { Halt::Cap } else { Halt::Memory };
             m.out.truncate(o);
             m.err.truncate(e);
